@@ -268,7 +268,8 @@ func permStage(t *testing.T, run *ev.Run, stage string) {
 		l   []string
 	}
 	lists := []ml{{true, nil}, {false, []string{"m1"}}, {false, []string{"m2"}}, {false, []string{"m1", "m2"}}, {false, []string{"zz"}}, {false, []string{}},
-		{false, []string{"M1", "m", "m11", "m2 "}}} // near misses: case, prefix, extension, trailing blank
+		{false, []string{"M1", "m", "m11", "m2 "}},           // near misses: case, prefix, extension, trailing blank
+		{false, []string{"*"}}, {false, []string{"*", "zz"}}} // a LIST holding an asterisk names a method called "*", it is no wildcard
 	mk := func(di, li int) permSpec {
 		d := descs[di]
 		d.AnyMethod, d.Methods = lists[li].any, lists[li].l
